@@ -39,7 +39,8 @@ func newMemIterator(db *memEng, opts IteratorOpts) (*memIterator, error) {
 	if opts.Type&common.RangeROpen <= 0 && upperBound != nil {
 		// range right not open, we need inclusive the max,
 		// however upperBound is exclusive
-		upperBound = append(upperBound, 0)
+		// (copy: never write into the spare capacity of the caller's Max)
+		upperBound = append(upperBound[:len(upperBound):len(upperBound)], 0)
 	}
 
 	dbit := &memIterator{
